@@ -26,6 +26,8 @@ GROUPING = {
     "alt_in_concat": '<start> ::= "a" ("b" | "c") "d" | "e"\n',
     "option_group": '<start> ::= ("a" "b")? ("c" | "d" "e")?\n',
     "exact_group": '<start> ::= ("a" | "b"){2} ("c" "d"){1,2}\n',
+    "same_text_plain_and_regex": '<start> ::= <a> <b> <a>\n<a> ::= "."\n<b> ::= r"."\n',
+    "same_text_regex_and_plain": '<start> ::= <b> <a>\n<b> ::= r"[ab]"\n<a> ::= "[ab]"\n',
     "parties": '<start> ::= <StdOut:a> <StdIn:b>?\n<a> ::= "a"\n<b> ::= "b"\n',
 }
 CONSTRAINTS = {
@@ -36,6 +38,9 @@ CONSTRAINTS = {
     "star_len": '<start> ::= <x>{1,3}\n<x> ::= "a" | "b"\nwhere len(*<start>.<x>) >= 2\nwhere |<start>.<x>| <= 3\n',
 }
 ALPHABET = ["a", "'", '"', "\\", "\n", "\x00", "é", "€", "\xff", "{", "<"]
+# regex literals that mix escapes with non-ASCII / control characters, each with a word it must match
+REGEX_EXAMPLES = [(r"\d+€", "12€"), (r"[à-ü]+", "àé"), (r"\s\x00", " \x00"), (r"\w\\", "a\\"), (r"é\.", "é."), (r"\d\t€?", "1\t"),
+                  (r"[^\x00-\x7f]\d", "€1"), (r"\"\d'", "\"1'")]
 
 
 def literal_specs(tier):
@@ -144,6 +149,26 @@ def run(tier="quick", seed=0, pid="C15"):
             ok2 = g2.parse(w) is not None
             if ok1 != ok2:
                 report(f"literal_{kind}{'_regex' if regex else ''}", "printed_literal_changes_meaning", f"literal {lit!r}: {src} printed as {printed!r}: accepts the literal before={ok1} after={ok2}", text)
+    for rx, example in REGEX_EXAMPLES:
+        evaluations += 1
+        distinct.add(("regex", rx))
+        text = f"<start> ::= r'{rx}'\n" if "'" not in rx else f'<start> ::= r"{rx}"\n' 
+        try:
+            from fandango.language.parse.parse import parse
+            g, _ = parse(text, use_stdlib=False, use_cache=False)
+            if g.parse(example) is None:
+                continue         # the example is not accepted in the first place: nothing to compare
+        except Exception:
+            continue
+        try:
+            printed = repr(g) + "\n"
+            g2, _ = parse(printed, use_stdlib=False, use_cache=False)
+            ok2 = g2.parse(example) is not None
+        except Exception as e:
+            report("literal_str_regex", "printed_literal_not_readable", f"regex {rx!r} printed as {printed!r}: {type(e).__name__}", text)
+            continue
+        if not ok2:
+            report("literal_str_regex", "printed_regex_rejects_its_example", f"regex {rx!r} printed as {printed!r} no longer matches {example!r}", text)
     seen, uniq = set(), []
     for v in violations:
         key = (v["name"], v["witness"].split(":")[0])
@@ -202,7 +227,10 @@ def replay(spec_text):
         if [bool(c.check(t)) for c in cs] != [bool(c.check(t2)) for c in cs2]:
             print("VIOLATION reproduced: constraint verdict changed on", repr(t.to_string()))
             return 1
-    lit = None
+    for rx, example in REGEX_EXAMPLES:
+        if g.parse(example) is not None and g2.parse(example) is None:
+            print("VIOLATION reproduced: the re-read grammar rejects", repr(example), "which the original accepts")
+            return 1
     print("not reproduced")
     return 0
 
